@@ -37,20 +37,47 @@ KIND_OF = {"GeneralNodeHeightTransform": "ratio", "DifferenceNodeHeightTransform
 
 
 # ----------------------------------------------------------------------------- parameters
-def draw_params(kind, t, dates, rng, rows, coarse=True):
+def draw_params(kind, t, dates, rng, rows, coarse=True, boundary=0.0):
     """parameter rows in the open domain: ratios in (0,1) + root height above the oldest tip, or
-    positive increments; dyadic so that float64 evaluation of the forward map is exact"""
+    positive increments; dyadic so that float64 evaluation of the forward map is exact.
+    `boundary`: probability that a ROW is drawn near the boundary of the open domain instead (ratios like
+    1e-6, 1e-8, 1e-9, 1-1e-9 on some nodes, root just above the oldest tip, increments like 1e-9)."""
     n = G.ntips(t)
     leaf = G.expected_leaf_heights(dates)
     out = []
     for _ in range(rows):
+        near = rng.random() < boundary
         if kind == "ratio":
             den = 4 if coarse else 8
             r = [rng.randrange(1, den) / den for _ in range(n - 2)]
             root = max(leaf) + rng.randrange(1, 33) / 4.0
+            if near:
+                for j in range(n - 2):
+                    if rng.random() < 0.6:
+                        r[j] = rng.choice([1e-6, 1e-8, 1e-9, 1 - 1e-9, 1 - 1e-6, 3e-7, 1e-4])
+                if rng.random() < 0.5:
+                    root = max(leaf) + rng.choice([1e-6, 1e-4, 1e-3, 0.015625])
+                # several extreme values on one root-to-node path multiply: keep every node at least 1e-10
+                # (relative) above its bound, otherwise float64 cannot tell it from the bound at all
+                for _try in range(60):
+                    if G.ratio_margin(t, leaf, r + [root]) >= 1e-10:
+                        break
+                    j = rng.randrange(n - 1)
+                    if j == n - 2:
+                        root = max(leaf) + rng.randrange(1, 33) / 4.0
+                    elif r[j] < 0.01:
+                        r[j] = rng.randrange(1, den) / den
+                else:  # deep trees: give up the tiny ratios, keep the almost-1 ones
+                    r = [v if v > 0.01 else rng.randrange(1, den) / den for v in r]
+                    root = max(leaf) + rng.randrange(1, 33) / 4.0
             out.append(r + [root])
         else:
-            out.append([rng.randrange(1, 33) / 8.0 for _ in range(n - 1)])
+            x = [rng.randrange(1, 33) / 8.0 for _ in range(n - 1)]
+            if near:
+                for j in range(n - 1):
+                    if rng.random() < 0.6:
+                        x[j] = rng.choice([1e-9, 1e-8, 1e-6, 3e-7, 1e-4])
+            out.append(x)
     return out
 
 
@@ -117,17 +144,21 @@ def oracle(case, obs):
         return [("shape", f"node_heights {tuple(H.shape)} / branch_lengths {tuple(bl.shape)} for parameter shape {tuple(obs['x'].shape)}")]
     leaf = G.expected_leaf_heights(case["dates"])
     Hr, blr = rows_of(H, batched), rows_of(bl, batched)
+    xr = rows_of(obs["x"], batched)
+    t = G.parse_paren(case["tree"])
     for b, (h, br) in enumerate(zip(Hr, blr)):
+        S = max(1.0, max(abs(v) for v in h))
+        slack = 8 * EPS * S
         for i in range(n):
-            if h[i] != leaf[i]:
-                bad.append(("tips", f"tip {i} at height {h[i]} but sampled at {leaf[i]} (row {b})"))
+            if abs(h[i] - leaf[i]) > leaf_tol(leaf[i]):
+                bad.append(("tips", f"tip {i} at height {h[i]!r} but sampled at {leaf[i]!r} (row {b})"))
                 break
         for p, c in obs["edges"]:
-            if not (h[p] >= h[c]):
+            if not (h[p] >= h[c] - slack):
                 bad.append(("order", f"node {p} (height {h[p]}) is younger than its child {c} (height {h[c]}) (row {b})"))
                 break
         for p, c in obs["edges"]:
-            if br[c] != h[p] - h[c] or not (br[c] >= 0):
+            if br[c] != h[p] - h[c] or not (br[c] >= -slack):
                 bad.append(("branch", f"branch {c}: length {br[c]} but parent-child = {h[p] - h[c]} (row {b})"))
                 break
     if "inv_error" in obs:
@@ -136,13 +167,51 @@ def oracle(case, obs):
         inv = obs["inv"]
         if tuple(inv.shape) != tuple(obs["x"].shape):
             bad.append(("inverse", f"inverse has shape {tuple(inv.shape)} for parameters of shape {tuple(obs['x'].shape)}"))
-        elif not torch.allclose(inv, obs["x"], rtol=1e-9, atol=1e-9):
-            bad.append(("inverse", f"inverse returns {inv.tolist()} for parameters {obs['x'].tolist()}"))
+        else:
+            ir = rows_of(inv, batched)
+            for b, (h, xrow, irow) in enumerate(zip(Hr, xr, ir)):
+                tols = inverse_tolerances(kind, t, n, obs["edges"], h, xrow)
+                worst = [(j, irow[j], xrow[j]) for j in range(n - 1)
+                         if not (abs(irow[j] - xrow[j]) <= tols[j])]
+                if worst:
+                    j, got, want = worst[0]
+                    bad.append(("inverse", f"inverse returns {got!r} for parameter {j} = {want!r} "
+                                           f"(relative error {abs(got - want) / abs(want) if want else float('inf'):.3g}; row {b}, "
+                                           f"parameters {xrow})"))
+                    break
     return bad
 
 
+EPS = 2.220446049250313e-16
+
+
+def leaf_tol(h):
+    """a sampling time that float32 holds exactly must be matched exactly; otherwise to float32 accuracy
+    (TimeTreeModel keeps sampling_times in the default dtype)"""
+    if float(torch.tensor(h, dtype=torch.float32).item()) == h:
+        return 0.0
+    return 1e-6 + 2.0 ** -23 * abs(h)
+
+
+def inverse_tolerances(kind, t, n, edges, h, xrow):
+    """how far inverse(forward(x)) may be from x in float64: relative 1e-9 plus the rounding of the heights
+    amplified by the division (ratio transform) — so a ratio of 1e-9 must come back as 1e-9, not as 0 or 1e-6"""
+    S = max(1.0, max(abs(v) for v in h))
+    if kind != "ratio":
+        return [1e-9 * abs(x) + 32 * EPS * S for x in xrow]
+    _e, _root, below = G.independent_index(t, n)
+    parent = {c: p for p, c in edges}
+    tol = [0.0] * (n - 1)
+    for c in range(n, 2 * n - 2):
+        bc = max(h[i] for i in below[c])
+        d = h[parent[c]] - bc
+        tol[c - n] = 1e-9 * abs(xrow[c - n]) + 64 * EPS * S / d if d > 0 else float("inf")
+    tol[n - 2] = 1e-12 * abs(xrow[n - 2]) + 4 * EPS * S
+    return tol
+
+
 def rel_close(a, b, tol=1e-12):
-    return a == b or abs(a - b) <= tol * max(1.0, abs(a), abs(b))
+    return a == b or (a != a and b != b) or abs(a - b) <= tol * max(1.0, abs(a), abs(b))
 
 
 def correspond(ck: Check, drv, case, obs):
@@ -180,8 +249,15 @@ def correspond(ck: Check, drv, case, obs):
     # ---- leaf heights, bounds (exact)
     dates_s = " ".join(G.rat_str(d) for d in case["dates"])
     leaf_m = [Fraction(v) for v in drv.ask(f"leaf R | {dates_s}").split()]
-    if "sampling" in obs and [Fraction(v) for v in obs["sampling"]] != leaf_m:
-        mm("sampling_times", obs["sampling"], [str(v) for v in leaf_m])
+    if "sampling" in obs:
+        if len(obs["sampling"]) != len(leaf_m) or any(
+                abs(a - float(m_)) > leaf_tol(float(m_)) for a, m_ in zip(obs["sampling"], leaf_m)):
+            mm("sampling_times", obs["sampling"], [float(v) for v in leaf_m])
+        elif [Fraction(v) for v in obs["sampling"]] != leaf_m:
+            # dates that float32 cannot hold: from here on the model is fed the sampling times the
+            # implementation really carries (their agreement with max − date is checked just above)
+            leaf_m = [Fraction(v) for v in obs["sampling"]]
+            ck.bucket("dates/float32-rounded")
     s_s = " ".join(G.rat_str(v) for v in leaf_m)
     if kind == "ratio" and "bounds" in obs:
         b_m = [Fraction(v) for v in drv.ask(f"bounds R {n} {tr} | {s_s}").split()]
@@ -205,12 +281,13 @@ def correspond(ck: Check, drv, case, obs):
             h_m = [h2f(v) for v in drv.ask(f"dfwd F {n} {tr} {kbits} | {s_f} | {x_f}").split()]
             # the implementation evaluates logsumexp over pairs of *tips* in float32 (sampling_times has the
             # default dtype), hence the float32-level tolerance for this variant only
-            if not all(rel_close(a, c, 5e-7) for a, c in zip(h_impl, h_m)) or len(h_m) != n - 1:
+            tol32 = 4 * 2.0 ** -23 * max(1.0, max(abs(v) for v in h_impl))
+            if not all(abs(a - c) <= tol32 for a, c in zip(h_impl, h_m)) or len(h_m) != n - 1:
                 mm("difference forward (smooth max)", h_impl, h_m)
             if invrows:
                 y_f = " ".join(f2h(v) for v in h_impl)
                 i_m = [h2f(v) for v in drv.ask(f"dinv F {n} {tr} {kbits} | {s_f} | {y_f}").split()]
-                if not all(rel_close(a, c, 5e-7) for a, c in zip(invrows[b], i_m)):
+                if not all(abs(a - c) <= tol32 for a, c in zip(invrows[b], i_m)):
                     mm("difference inverse (smooth max)", invrows[b], i_m)
             continue
         x_s = " ".join(G.rat_str(v) for v in xrow)
@@ -245,8 +322,12 @@ def correspond(ck: Check, drv, case, obs):
             else:
                 y_s = " ".join(G.rat_str(v) for v in h_impl)
                 i_m = [Fraction(v) for v in drv.ask(f"dinv R {n} {tr} 0 | {s_s} | {y_s}").split()]
-                if [Fraction(v) for v in invrows[b]] != i_m:
-                    mm("difference inverse (exact)", invrows[b], [str(v) for v in i_m])
+                if exact:
+                    if [Fraction(v) for v in invrows[b]] != i_m:
+                        mm("difference inverse (exact)", invrows[b], [str(v) for v in i_m])
+                elif not all(abs(a - float(c)) <= 32 * EPS * max(1.0, max(abs(v) for v in h_impl))
+                             for a, c in zip(invrows[b], i_m)):
+                    mm("difference inverse", invrows[b], [float(v) for v in i_m])
 
 
 # ----------------------------------------------------------------------------- device moves
@@ -378,7 +459,7 @@ def live_history(ck: Check, drv, kind, style, t, dates, batched, n_updates, rng)
     for k in range(n_updates):
         leaf_i = rng.randrange(len(leaves))
         p, pk, (a, b) = leaves[leaf_i]
-        new_rows = draw_params(kind, t, dates, rng, B)
+        new_rows = draw_params(kind, t, dates, rng, B, boundary=0.25 if len(leaves) == 1 else 0.0)
         mode = rng.choice(["assign", "inplace", "inplace"])
         step = {"leaf": leaf_i, "mode": mode, "values": [r[a:b] for r in new_rows]}
         steps.append(step)
@@ -424,8 +505,7 @@ def live_history(ck: Check, drv, kind, style, t, dates, batched, n_updates, rng)
         # Lean model at the current values
         if drv is not None:
             try:
-                leaf_m = [Fraction(v) for v in drv.ask("leaf R | " + " ".join(G.rat_str(d) for d in dates)).split()]
-                s_f = " ".join(f2h(float(v)) for v in leaf_m)
+                s_f = " ".join(f2h(float(v)) for v in m.sampling_times.tolist())
                 Hr = rows_of(H, batched)
                 blr = rows_of(bl, batched)
                 for bi, xrow in enumerate(cur):
@@ -500,6 +580,90 @@ def replay_live(obj):
     return 1 if bad else 0
 
 
+
+# ----------------------------------------------------------------------------- keep_branch_lengths
+def kbl_newick(t, n, lengths):
+    """Newick with branch lengths; lengths[idx] for the post-order numbering of independent_index"""
+    counter = [n]
+
+    def go(u):
+        if not isinstance(u, tuple):
+            return f"T{u}:{lengths[u]!r}", u
+        a, ia = go(u[0])
+        b, ib = go(u[1])
+        me = counter[0]
+        counter[0] += 1
+        return f"({a},{b})" + (f":{lengths[me]!r}" if me in lengths else ""), me
+
+    return go(t)[0] + ";"
+
+
+def kbl_case(rng):
+    """a consistently dated time tree: valid heights -> branch lengths -> Newick; the models are then built
+    with keep_branch_lengths and must reproduce it"""
+    n = rng.randrange(3, 8)
+    t = G.random_flip(G.random_topology(n, rng), rng)
+    schemes = G.date_schemes(n, rng)
+    sname = rng.choice(["calendar-decimal", "ages-decimal", "calendar", "ages", "calendar-decimal"])
+    dates = schemes[sname]
+    leaf = G.expected_leaf_heights(dates)
+    edges, root, below = G.independent_index(t, n)
+    parent = {c: p for p, c in edges}
+    for _try in range(200):
+        H = {i: leaf[i] for i in range(n)}
+        H[root] = max(leaf) + rng.uniform(0.5, 5.0)
+        for v in range(2 * n - 3, n - 1, -1):  # parents have larger indices
+            b = max(leaf[i] for i in below[v])
+            H[v] = b + rng.uniform(0.15, 0.85) * (H[parent[v]] - b)
+        lengths = {c: H[p] - H[c] for p, c in edges}
+        if min(lengths.values()) >= 0.02:
+            break
+    return {"type": "kbl", "tree": G.paren(t), "dates": dates, "scheme": sname, "n": n,
+            "heights": [H[i] for i in range(2 * n - 1)], "newick": kbl_newick(t, n, lengths)}
+
+
+def run_kbl(case):
+    """-> [(clause, what)] for the two model classes built from the dated Newick with keep_branch_lengths"""
+    from torchtree.evolution.tree_model import ReparameterizedTimeTreeModel, TimeTreeModel
+
+    n, dates, Hexp = case["n"], case["dates"], case["heights"]
+    leaf = G.expected_leaf_heights(dates)
+    t = G.parse_paren(case["tree"])
+    edges, _root, _below = G.independent_index(t, n)
+    bad = []
+    builds = {
+        "ReparameterizedTimeTreeModel": lambda dic: ReparameterizedTimeTreeModel.from_json(
+            {"id": "tree", "type": "ReparameterizedTimeTreeModel", "newick": case["newick"], "taxa": taxa_json(dates),
+             "keep_branch_lengths": True, "ratios": pjson("ratios", [0.5] * (n - 2)),
+             "root_height": pjson("root_height", [max(leaf) + 1.0])}, dic),
+        "TimeTreeModel": lambda dic: TimeTreeModel.from_json(
+            {"id": "tree", "type": "TimeTreeModel", "newick": case["newick"], "taxa": taxa_json(dates),
+             "keep_branch_lengths": True, "internal_heights": pjson("heights", [max(leaf) + 1.0] * (n - 1))}, dic),
+    }
+    for cls, build in builds.items():
+        try:
+            m = build({})
+            h = m.node_heights.tolist()
+            br = m.branch_lengths().tolist()
+        except Exception as e:
+            bad.append((f"{cls}:raises", f"{type(e).__name__}: {str(e)[:140]}"))
+            continue
+        S = max(1.0, max(abs(v) for v in Hexp))
+        for i in range(n):
+            if abs(h[i] - leaf[i]) > leaf_tol(leaf[i]):
+                bad.append((f"{cls}:tips", f"tip {i} at height {h[i]!r} but sampled at {leaf[i]!r}"))
+                break
+        for i in range(n, 2 * n - 1):
+            if abs(h[i] - Hexp[i]) > 2e-5 * S:  # heights_from_branch_lengths works in float32 with a 1e-6 floor
+                bad.append((f"{cls}:heights", f"node {i} at height {h[i]!r}; the dated tree has it at {Hexp[i]!r}"))
+                break
+        for p, c in edges:
+            if not (br[c] >= -1e-9) or abs(br[c] - (Hexp[p] - Hexp[c])) > 4e-5 * S:
+                bad.append((f"{cls}:branch", f"branch {c} has length {br[c]!r}; the dated tree has {Hexp[p] - Hexp[c]!r}"))
+                break
+    return bad
+
+
 # ----------------------------------------------------------------------------- case streams
 def corpus_cases():
     d = VERIF / "corpus" / "C06"
@@ -538,6 +702,24 @@ def generated_cases(ck: Check):
                             "x": draw_params(kind, t, schemes[sname], rng, rows), "batched": batched,
                             "origin": f"exhaustive-{n}",
                         }
+    # near the boundary of the open domain: tiny / almost-1 ratios on non-root internal nodes (nodes with an
+    # internal child from 4 taxa on), root just above the oldest tip, tiny increments; in a batch only some rows
+    for n in range(3, max_exh + 1):
+        topos = G.all_topologies(n)
+        if n >= 5:
+            topos = rng.sample(topos, min(len(topos), 120 if ck.thorough() else 40))
+        for t0 in topos:
+            t = G.random_flip(t0, rng)
+            schemes = G.date_schemes(n, rng)
+            sname = rng.choice(list(schemes))
+            for kind in ("ratio", "difference"):
+                batched = rng.random() < 0.4
+                rows = rng.randrange(2, 5) if batched else 1
+                yield {
+                    "tree": G.paren(t), "dates": schemes[sname], "scheme": sname, "kind": kind,
+                    "x": draw_params(kind, t, schemes[sname], rng, rows, boundary=0.5 if batched else 1.0),
+                    "batched": batched, "origin": "boundary",
+                }
     # random larger trees (incl. caterpillars: deepest recursion through the pre-order loop)
     n_rand = 120 if ck.thorough() else 30
     for i in range(n_rand):
@@ -551,8 +733,8 @@ def generated_cases(ck: Check):
             rows = rng.randrange(2, 5) if batched else 1
             yield {
                 "tree": G.paren(t), "dates": schemes[sname], "scheme": sname, "kind": kind,
-                "x": draw_params(kind, t, schemes[sname], rng, rows, coarse=(n > 8)), "batched": batched,
-                "origin": "random",
+                "x": draw_params(kind, t, schemes[sname], rng, rows, coarse=(n > 8), boundary=0.3),
+                "batched": batched, "origin": "random",
             }
     # smooth-max variant of the difference transform (k > 0)
     for i in range(40 if ck.thorough() else 12):
@@ -625,6 +807,8 @@ def run(ck: Check):
                 bucket=f"{case['kind']}/{'batched' if case['batched'] else 'single'}/n={n if n <= 6 else '7+'}",
             )
             ck.bucket("dates/" + case.get("scheme", "corpus"))
+            if case.get("origin") == "boundary":
+                ck.bucket("parameters/near-boundary")
             if case.get("k"):
                 ck.bucket("difference/smooth-max")
             try:
@@ -636,6 +820,12 @@ def run(ck: Check):
                 rep = {k: case[k] for k in ("tree", "dates", "kind", "x", "batched")}
                 rep.update({"type": "transform", "k": case.get("k"), "newick": G.newick(G.parse_paren(case["tree"]))})
                 record(sig, what, rep, case_size(case))
+        # ---- consistently dated trees read with keep_branch_lengths (decimal calendar dates and ages)
+        for c in [c for c in corpus_cases() if c.get("type") == "kbl"] + [kbl_case(ck.rng) for _ in range(120 if ck.thorough() else 40)]:
+            ck.case(key=("kbl", c["newick"]), bucket=f"keep_branch_lengths/{c.get('scheme', 'corpus')}",
+                    sample=c if len(ck.samples) < 5 and c["n"] == 4 else None)
+            for clause, what in run_kbl(c):
+                record(f"keep_branch_lengths:{clause}", what, c, (c["n"], 1, 0))
         rng = ck.rng
         # ---- live models: update histories (assignment and in-place + notification)
         n_hist = 240 if ck.thorough() else 60
@@ -747,6 +937,13 @@ def replay(path: str) -> int:
         return 1 if bad else 0
     if typ == "live":
         return replay_live(obj)
+    if typ == "kbl":
+        bad = run_kbl(obj)
+        print(f"dated tree {obj['newick']} dates {obj['dates']} read with keep_branch_lengths")
+        for clause, what in bad:
+            print(f"VIOLATES [{clause}]: {what}")
+        print("VIOLATES" if bad else "property holds on this input")
+        return 1 if bad else 0
     if typ == "device":
         t = G.parse_paren(obj["tree"])
         res = device_case(obj["kind"], obj["move"], t, obj["dates"], obj["x"][0])
